@@ -113,7 +113,7 @@ func runCrash(seed int64, n int, out *bufio.Writer, thorough bool) *crashStats {
 		var rets []returned
 		shape := ""
 		nOps := 12 + r.Intn(20)
-		payloads := []string{"x", "y", "z"}
+		payloads := []string{"x", "y", "z", ""} // the empty payload is a legal entry
 		for k := 0; k < nOps; k++ {
 			i := r.Intn(len(reps))
 			l := reps[i].log
